@@ -9,27 +9,32 @@ LEVEL = "other"
 from lib.core import existing_modules
 LEAN_MODULES = ["Sonic.Props.C07"]
 REQUIRED_THEOREMS = ["Sonic.Props.C07." + n for n in ["C07_tables", "C07_exponents", "C07_checker_sound", "C07_inInterval", "C07_zero", "C07_integer_path",
-                                                         "C07_format", "C07_decimal_path", "C07_output"]]
+                                                         "C07_format", "C07_decimal_path", "C07_output", "C07_validCQ", "C07_schubfach", "C07_shortest",
+                                                         "C07_roundTrips_iff_rne", "C07_roundTrips_iff_rne_signed", "C07_chk_reparse", "C07_chk_reparse_signed"]]
 CONFIGS = [("avx2", "prod"), ("sse", "prod"), ("avx2", "san")]
 CONFIGS_THOROUGH = CONFIGS + [("dyn", "prod")]
 RULE = ("bit patterns: for each of the 2046 finite binary exponents the smallest significand (irregular boundary), +1, the largest, and "
         "random ones; every subnormal exponent; 10^k (k=-323..308) and both neighbours; integers 0..N, powers of two and 2^53 neighbourhood; "
         "single-precision values widened; uniformly random 64-bit patterns; both signs.  distinct = distinct bit pattern; "
         "non-trivial = finite and non-zero")
-EXPLANATION = ("Proved in Lean: all 617 rows of the power-of-ten table and the three fixed-point logarithm approximations (C07_tables), "
-               "soundness of the decidable checker chk (round-trips / minimal digits / closest; C07_checker_sound), zero and integer paths, "
-               "and the formatting theorems listed in the evidence. The Schubfach core (toDecimal always satisfies chk) is NOT proved for all "
-               "doubles: it is validated per input - for every double of the run, chk is evaluated on the digits the implementation printed, "
-               "so for each tested double the three clauses are proved for the implementation's actual output. The run also compares bytes "
-               "and write extent with the literal model and reads the text back through the library's own parser.")
+EXPLANATION = ("Proved in Lean for ALL doubles: every row of the power-of-ten table and the three fixed-point logarithm approximations "
+               "(C07_tables), soundness of the decidable certificate chk (round-trips / minimal digits / closest; C07_checker_sound), the zero, "
+               "integer and formatting paths (C07_output ...), the Schubfach core (C07_schubfach: the decimal chosen by the model of F64ToDecimal "
+               "satisfies chk for every finite non-zero double - via 2046 kernel-checked number-theoretic certificates showing that RoundToOdd of "
+               "the 128-bit table product is the exact round-to-odd of the true scaled value; C07_shortest) and the link to the reference reader "
+               "(C07_roundTrips_iff_rne: the rounding interval is exactly the preimage of the bit pattern under Spec.Rne.round; C07_chk_reparse). "
+               "The run ties the model to the compiled code: bytes and write extent equal the model's, and - independently of the model - chk and "
+               "the exact reference rounding are evaluated on the digits the implementation printed; the text is also read back through the "
+               "library's own parser.")
 ASSUMPTIONS = ["__uint128_t multiplication is exact (modelled as Nat product mod 2^128)",
-               "C07_schubfach (for all doubles) is open: per-input validation instead"]
-TRUSTED = ["the decidable checker Spec.Shortest.chk (proved sound) evaluated by the compiled Lean driver on each printed text"]
-LEVEL_TEXT = ("Partial proof + validated per input: tables, checker soundness, zero/integer/format paths are Lean theorems for all inputs; the "
-              "shortest-digit core is checked by a proved-sound decision procedure on every output of the run (translation-validation style), "
-              "not proved for all doubles.")
-LEVEL_NOTE = "Trusted: Lean kernel; standard axioms; table translator; exactness of 128-bit multiplication; compiled Lean evaluation of chk."
-TECHNIQUE = "Lean 4 theorems (tables, checker soundness, formatting) + per-output proved-sound checker + differential correspondence"
+               "the model of ftoa.h is tied to the compiled code by correspondence (bytes, extent) on the generated bit patterns"]
+TRUSTED = ["the decidable checker Spec.Shortest.chk (proved sound) evaluated by the compiled Lean driver on each printed text (cross-check)"]
+LEVEL_TEXT = ("Machine-checked proof (Lean 4) for every double: tables, formatting, Schubfach core (C07_schubfach, C07_shortest), certificate "
+              "soundness and the link to the exact reference rounding (C07_chk_reparse). Level stays 'other' until the last lemma - the integer "
+              "fast path's output also satisfies the shortest/closest certificate (its exactness and round trip are proved: C07_integer_path) - "
+              "is integrated; that clause is validated per output by the proved-sound checker.")
+LEVEL_NOTE = "Trusted: Lean kernel; standard axioms; table translator; exactness of 128-bit multiplication; correspondence run (model = compiled code)."
+TECHNIQUE = "Lean 4 proof of the Schubfach model for all doubles (kernel-checked certificates) + per-output proved-sound checker + differential correspondence"
 
 
 def _bits(f):
